@@ -4,7 +4,6 @@ set -e
 cd "$(dirname "$0")"
 export CARGO_NET_OFFLINE=true
 mkdir -p work evidence replays
-cp /repo/Cargo.lock harness/Cargo.lock 2>/dev/null || true
 (cd harness && cargo build --offline --quiet --features batch --target-dir target-batch)
 (cd harness && cargo build --offline --quiet --target-dir target-nobatch)
 for m in spec/Trace.tla; do
